@@ -20,7 +20,9 @@ PLAN = {
         sim=[("MC_Faults.cfg", [1, 2, 3], 3, {"NDest": 3, "MaxActs": 4, "MaxMsgs": 9, "MaxFaults": 4, "MaxDepth": 3, "MaxBlocks": 3,
                                               "InitDests": "D123", "Feat": '{"finish", "ctx", "run", "dfault", "task", "alog"}'})],
         profiles=[dict(feat={"task", "finish", "ctx", "run", "alog", "tb", "remote", "spawn", "ext", "preserve"}, nctx=3, ndest=3, init=[1, 2, 3],
-                       dfault=0.2, maxlen=40)],
+                       dfault=0.2, maxlen=40),
+                  dict(feat={"finish", "ctx", "task"}, ndest=2, init=[1, 2], maxlen=40, abort=0.2,
+                       weights={"Exit": 3.0, "Finish": 3.0, "EnterWith": 3.0})],
         extra="c02_raced_ids", keep_sizes=True),
     "C03": dict(
         exhaustive=[("MC_Core.cfg", [1], 1)],
@@ -28,7 +30,11 @@ PLAN = {
         sim=[("MC_Succ.cfg", [1], 1, {"MaxActs": 4, "MaxMsgs": 10, "MaxDepth": 3, "MaxBlocks": 4,
                                        "Feat": '{"finish", "succ", "ext", "ctx", "run", "typed", "task"}'})],
         profiles=[dict(feat={"finish", "succ", "ext", "ctx", "run", "typed", "task", "alog"}, ndest=2, init=[1, 2], maxlen=40,
-                       weights={"Exit": 4.0, "Finish": 1.0})],
+                       weights={"Exit": 4.0, "Finish": 1.0}),
+                  # explicit finish() calls and block exits interrupted by a destination raising a non-Exception (KeyboardInterrupt
+                  # ...) while the end message is being delivered: still at most one end message, whatever finishes the action next
+                  dict(feat={"finish", "ctx", "run", "task"}, ndest=2, init=[1, 2], maxlen=40, abort=0.2, dfault=0.05,
+                       weights={"Exit": 3.0, "Finish": 3.0, "EnterWith": 3.0})],
         deferred=True),
     "C04": dict(
         exhaustive=[("MC_Core.cfg", [1], 1)],
